@@ -6,6 +6,7 @@ from hypothesis import strategies as st
 
 from vlib.core import Violation, lib_call
 from vlib.hypo import Check
+from vlib.runs import quiet
 
 PID = "C15"
 LEVEL = "exploration"
@@ -134,6 +135,16 @@ def check_gmm(g, X, K, cov_type, what):
                                 f"[{lo.tolist()}, {hi.tolist()}]", sig={"kind": "mean-outside-box"})
 
 
+def alt_repr(X, sw, seed):
+    """the same data in another legitimate representation"""
+    k = seed % 3
+    if k == 0:
+        return X.tolist(), sw.tolist(), "nested lists"
+    if k == 1:
+        return np.asfortranarray(X.copy()), sw.copy(), "Fortran-ordered array"
+    return X.copy(), sw.copy(), "C-ordered array"
+
+
 def exec_gmm(case):
     from tempest.cluster import GaussianMixture
 
@@ -149,8 +160,14 @@ def exec_gmm(case):
     X2 = np.random.default_rng(case["seed"] + 1).random((max(2 * K, 6), X.shape[1])) * 3.0 - 1.0
     lib_call(g2.fit, X2, what="GaussianMixture.fit(other data)")
     np.random.seed(case["seed"] % 2**31)
-    lib_call(g2.fit, X.copy(), sample_weight=sw.copy(), what="GaussianMixture.fit(refit)")
-    for name in ("weights_", "means_", "covariances_"):
+    # ... and the input representation must not matter either: nested lists / Fortran-ordered arrays in place of C-ordered arrays
+    Xr, swr, how = alt_repr(X, sw, case["seed"])
+    lib_call(g2.fit, Xr, sample_weight=swr, what=f"GaussianMixture.fit(refit, {how})")
+    if how.startswith("Fortran"):
+        # another memory order changes the order of the floating-point sums inside the EM iteration (measured: 3e-9 relative on
+        # the covariances after 100 iterations with skewed weights): the numbers are not comparable bit for bit, the invariants are
+        check_gmm(g2, X, K, case["cov"], "GaussianMixture.fit(Fortran-ordered array)")
+    for name in (() if how.startswith("Fortran") else ("weights_", "means_", "covariances_")):
         a, b_ = np.asarray(getattr(g, name), dtype=float), np.asarray(getattr(g2, name), dtype=float)
         if a.shape != b_.shape or not np.allclose(a, b_, rtol=1e-9, atol=1e-12, equal_nan=True):
             raise Violation(f"GaussianMixture: a model object that was fitted to other data before gives a different {name} for the same "
@@ -231,7 +248,10 @@ def exec_hgm(case):
     X2 = np.random.default_rng(case["seed"] + 1).random((max(4 * d + 2, 10), d)) * 5.0 - 2.0
     lib_call(h2.fit, X2, what="HierarchicalGaussianMixture.fit(other data)")
     np.random.seed(case["seed"] % 2**31)
-    lib_call(h2.fit, X.copy(), sw.copy(), what="HierarchicalGaussianMixture.fit(refit)")
+    Xr, swr, how = alt_repr(X, sw, case["seed"] if case["seed"] % 3 != 1 else 2)  # (labels are compared exactly: no Fortran order here)
+    h2.verbose = case["seed"] % 5 == 0  # the progress messages are printed from inside the split loop
+    with quiet():
+        lib_call(h2.fit, Xr, swr, what=f"HierarchicalGaussianMixture.fit(refit, {how})")
     if int(h2.n_clusters_) != int(h.n_clusters_) or not np.array_equal(np.asarray(h2.labels_), np.asarray(h.labels_)):
         raise Violation("HierarchicalGaussianMixture: a model object that was fitted to other data before labels the same data differently "
                         "than a fresh object (state carried between fits)", sig={"kind": "state-carried-over"})
